@@ -173,11 +173,52 @@ def r20c(ctx, rep, rule="R20c"):
                 "the types that start a forward scan are %s but the parser opens a bracketed datum on %s" % (show(openers), show(p_open)), [f.span])
 
 
+def r20f(ctx, rep, rule="R20f"):
+    """the token stream decides whether there is a bracket at the cursor"""
+    from .. import shapes
+    facts = ctx["facts"]
+    rep.rule(rule, "tokens, not bytes, decide: brackets are tokens (the vector opener `#(` is one two-byte bracket token, and a "
+             "bracket byte inside a string or comment is none), so every exit of highlight that returns the text unchanged, "
+             "and every `false` of highlight_check, comes after lex::scan was consulted (or under an emptiness test of the "
+             "text). A byte-level pre-check in front of the scanner answers for the token stream without looking at it.")
+    n = 0
+    for nm in ("highlight", "highlight_check"):
+        f = need(rep, rule, facts, "marwood::syntax::ReplHighlighter::" + nm)
+        if f is None:
+            continue
+        scans = [bb for bb, t in f.calls() if callee(t) == "marwood::lex::scan"]
+        if not scans:
+            rep.anchor_lost(rule, "%s does not call lex::scan" % nm)
+            continue
+        k = 0
+        for bb, j, st in f.stmts():
+            rv = st["rv"]
+            if st["lhs"]["l"] != 0 or st["lhs"]["p"]:
+                continue
+            unchanged = rv["k"] == "agg" and (rv.get("adt") or "").endswith("Cow") and rv.get("variant") == "Borrowed"
+            c = op_const(rv.get("a")) if rv["k"] == "use" else None
+            neg = c is not None and c.get("ty") == "bool" and c.get("int") in (0, False)
+            if not (unchanged or neg):
+                continue
+            k += 1
+            n += 1
+            key = "%s|%s|%s#%d" % (rule, nm, "unchanged" if unchanged else "false", k)
+            after = any(f.dominates(sb, bb) and sb != bb for sb in scans)
+            empty = any(re.search(r"is_empty\(a2\)=T|\(Eq core::str::<impl str>::len\(a2\) c:0\)=T", g) for g in shapes.guard_shapes(f, bb, None, 3))
+            (rep.ok if (after or empty) else rep.fail)(
+                rule, key, "%s gives its negative answer after scanning the text" % nm if (after or empty) else
+                "%s returns %s before lex::scan was called: the answer rests on bytes, but `#(` is a bracket token that starts with "
+                "`#`, and a bracket byte in a string or comment is no token" % (nm, "the text unchanged" if unchanged else "false"), [st["loc"]])
+    rep.floor(rule, "negative exits of the highlighter", n, 3)
+
+
 def run(ctx, rep):
     tables.r20a(ctx, rep)
     r20b(ctx, rep)
     r20c(ctx, rep)
+    r20f(ctx, rep)
     tables.r11f(ctx, rep, rule="R20d")
+    tables.r11j(ctx, rep, rule="R20g")
     from . import C11
     C11.r11i(ctx, rep, rule="R20e")
     rep.rules["R20e"] = "brackets in comments stay out of the token stream: " + rep.rules["R20e"]
